@@ -88,7 +88,7 @@ Proof.
   - (* DropColumn *)
     cbn [step]. destruct (find_tbl t c) as [tb|] eqn:Ef; [|reflexivity].
     destruct (find_col x tb) as [cl|]; [|reflexivity].
-    destruct (fk_uses_col c t x || cpk cl || _); cbn; unfold tnames; cbn; apply set_tbl_names; cbn; eapply find_tbl_name; eauto.
+    match goal with |- context [if ?b then (false, _) else (true, _)] => destruct b end; cbn; unfold tnames; cbn; apply set_tbl_names; cbn; eapply find_tbl_name; eauto.
   - (* RenameColumn *)
     cbn [step].
     match goal with |- context [upd c t ?ok ?f] =>
